@@ -20,7 +20,7 @@ func hashBytes(b []byte) string { h := sha1.Sum(b); return hex.EncodeToString(h[
 
 func c19List(seed uint64, c int) *astisub.Subtitles {
 	r := newRng(seed*1000003 + uint64(c))
-	return richSubs(r, richOpts{safe: true, maxStyles: 6, maxItems: 5, caseIDs: c%3 == 1, unordered: c%2 == 1})
+	return richSubs(r, richOpts{safe: true, maxStyles: 6, maxItems: 5, caseIDs: c%3 == 1, unordered: c%2 == 1, dangling: c%4 == 2, breaks: c%5 == 3})
 }
 
 // writes list c to every format once; returns format -> hash (or "ERR"/"PANIC")
